@@ -238,7 +238,7 @@ def run(ctx):
             tol = [x for x in ast.walk(iff.test) if (isinstance(x, ast.Compare) and len(x.ops) == 1 and isinstance(x.ops[0], (ast.Lt, ast.LtE))
                                                      and isinstance(x.left, ast.Call) and txt(x.left.func) in ("abs", "math.fabs", "np.abs", "numpy.abs", "np.fabs")
                                                      and isinstance(astx.const_value(x.comparators[0]), (int, float)) and astx.const_value(x.comparators[0]) > 0)
-                   or (isinstance(x, ast.Call) and txt(x.func).split(".")[-1] in ("isclose", "allclose"))]
+                   or (isinstance(x, ast.Call) and txt(x.func).split(".")[-1] in ("isclose", "allclose", "round"))]
             if leaves_ and tol:
                 o.violated(nz, iff, f"normalise_jdd leaves the table as it is when `{txt(tol[0])[:60]}`: weights whose total is merely CLOSE to 1 are exposed un-normalised "
                                     "(the loaders promise the normalised product / frequency exactly)", shape_free=True)
